@@ -636,6 +636,40 @@ def perm_sweep(ctx, cap):
                     break
 
 
+def merge_texts(ctx):
+    """every combination of cell bodies (empty, one empty paragraph more, text, several paragraphs, only line breaks) in
+    the origin and in a spanned cell of a merge, horizontally and vertically, followed by a split: the part validated
+    after each call (a body must keep at least one a:p whatever was moved out of or into it)"""
+    from pptx import Presentation
+
+    texts = ["", "\n", "\n\n", "a", "a\nb", "\v", "a\n"]
+    prs = Presentation()
+    slide = prs.slides.add_slide(prs.slide_layouts[6])
+    w = Watch(ctx, "generated-deck(merge texts)")
+    w.check(prs.part.package, "<open>", "ok", [])
+    for t0 in texts:
+        for t1 in texts:
+            for r2, c2 in ((0, 1), (1, 0), (1, 1)):
+                tbl = slide.shapes.add_table(2, 2, 0, 0, 1000, 1000).table
+                tbl.cell(0, 0).text = t0
+                tbl.cell(r2, c2).text = t1
+                hist = [f"cell(0,0).text={t0!r}", f"cell({r2},{c2}).text={t1!r}"]
+                for desc, fn in ((f"merge (0,0)-({r2},{c2})", lambda: tbl.cell(0, 0).merge(tbl.cell(r2, c2))), ("split", lambda: tbl.cell(0, 0).split())):
+                    try:
+                        fn(); outcome = "ok"
+                    except oplab.REJECT as e:
+                        outcome = f"rejected:{type(e).__name__}"
+                    hist.append(desc)
+                    ctx.case(key=("merge-texts", t0, t1, r2, c2, desc.split(" ")[0]))
+                    if w.check(prs.part.package, desc, outcome, hist):
+                        for pn in list(w.tainted):
+                            w.tainted.discard(pn); w.valid[pn] = True
+                sp = slide.shapes._spTree
+                sp.remove(sp[-1])
+                w.check(prs.part.package, "<table removed>", "ok", [])
+    ctx.count("merge-text-combinations", len(texts) ** 2 * 3)
+
+
 def histories(ctx, n_seq, nops):
     decks = [None, None] + common.corpus_decks()
     lines = []
@@ -664,6 +698,7 @@ def correspond(ctx):
     sweep(ctx, 2 if ctx.quick else 12)
     method_sweep(ctx, 3 if ctx.quick else 20)
     perm_sweep(ctx, 400 if ctx.quick else 10**6)
+    merge_texts(ctx)
     histories(ctx, 120 if ctx.quick else 1500, 25 if ctx.quick else 40)
 
 
